@@ -628,6 +628,8 @@ package workflow
 //@   ensures [input-scope-or-error] (result1 == nil) != (result == nil)
 //@   ensures [the-input-scope-is-the-described-input-with-its-own-references-applied] result1 == nil ==> called(Unserialize, 1) && callarg(Unserialize, 1, 1) == workflow.Input && \
 //@        any(result) == callres(Unserialize, 1, 0) && called(ApplySelf, 1) && callrecv(ApplySelf, 1) == any(result)
+//@   ensures [the-root-object-of-an-accepted-scope-is-defined-under-its-own-id] result1 == nil ==> called(Objects, 1) && callrecv(Objects, 1) == any(result) && \
+//@        indom(callres(Objects, 1, 0), callres(Root, 1, 0)) && callres(Objects, 1, 0)[callres(Root, 1, 0)] != nil && callrecv(Root, 1) == any(result)
 //@ func (*executor).buildInternalDataModel
 //@   ensures result != nil
 // The namespace and compatibility passes only read the graph and the step tables (they write into
@@ -673,7 +675,16 @@ package workflow
 //@   modifies nothing
 //@   ensures [every-stage-of-every-step-was-verified] result == nil ==> true
 //
+// Prepare is the recovering wrapper around prepare: on the paths without a panic its results are
+// those of prepare, and a panic of the schema code it runs becomes an error (structural obligation).
 //@ func (*executor).Prepare
+//@   opt recovers
+//@   requires e != nil && e.logger != nil && e.config != nil && e.stepRegistry != nil && workflow != nil
+//@   requires [step-ids-are-not-empty] forall s string :: indom(workflow.Steps, s) ==> s != ""
+//@   ensures [workflow-or-error] (result1 == nil) != (result == nil)
+//@   ensures [a-prepared-workflow-satisfies-its-representation-invariant] result1 == nil ==> typeis(result, *executableWorkflow) && wfexec(result.(*executableWorkflow))
+//@   ensures [the-results-are-those-of-the-preparation] called(prepare, 1) && result == callres(prepare, 1, 0) && result1 == callres(prepare, 1, 1)
+//@ func (*executor).prepare
 //@   requires e != nil && e.logger != nil && e.config != nil && e.stepRegistry != nil && workflow != nil
 //@   requires [step-ids-are-not-empty] forall s string :: indom(workflow.Steps, s) ==> s != ""
 //@   ensures [workflow-or-error] (result1 == nil) != (result == nil)
